@@ -319,6 +319,19 @@ def run(ctx):
     all_classes = [ci for lst in model.classes.values() for ci in lst]
     ctx.setcount('classes', len(all_classes))
     check_uniform_attributes(ctx, model)
+    # equality is computed from text (to_tree + printed SQL, repr of embedded values): no printer / __repr__ / comparison may mention the identity of an object
+    # (C20's rule, over the classes' files)
+    from . import C20
+    nfiles = 0
+    for f_ in ctx.src.py_files('mindsdb_sql'):
+        nfiles += 1
+        for fn_, call_, why_ in C20.process_dependent_calls(ctx.src.tree(f_), f_):
+            if fn_.name in C20.PRINTERISH | {'__hash__'}:
+                ctx.ob('C18.eq-implies-same-print', f'identity-free:{f_.split("/")[-1]}:{fn_.name}:{norm(call_)[:40]}', False,
+                       f'{fn_.name} computes `{norm(call_)[:60]}`: {why_}; trees are compared by their text (to_tree embeds the repr of parameter values), so a tree is no longer '
+                       f'equal to its own copy', file=f_, line=call_.lineno, witness='parse_sql("CREATE CHATBOT b USING model=m").copy() == <the tree>')
+    ctx.setcount('identity_scan_files', nfiles)
+    ctx.ob('C18.eq-implies-same-print', 'identity-free:all', True, '')
 
     # (1) generic deepcopy
     base = model.get('ASTNode')
